@@ -34,10 +34,9 @@ def find_decoders(facts, pm):
     for fld, sinks in pm["sinks"].items():
         for s in sinks:
             if s["via"] and not s["decoded"]:
-                r = s["region"]
-                if r[0] == "RSplitR" and r[1] == "#":
+                if fld == "subpath":
                     out["subpath"] = (s["via"], s)
-                elif r[0] == "RSplitL" and r[1] == "/":
+                elif fld == "namespace":
                     out["namespace"] = (s["via"], s)
     return out
 
@@ -81,6 +80,8 @@ def rule_segloop(ctx):
         site0 = body.site(0)
         I = lambda s: "%s: %s" % (comp, s)  # noqa: E731
         # store in the parser
+        want_region = {"subpath": ("RSplitR", "#"), "namespace": ("RSplitL", "/")}[comp]
+        ctx.ob("SEGLOOP", I("the decoder receives the %s region of the parser (%s at %r)" % (comp, want_region[0], want_region[1])), sink["region"][:2] == want_region, fn=pm["key"], site=sink["site"], detail=show_region(sink["region"]))
         ctx.ob("SEGLOOP", I("parser stores Ok-payload of the decoder into parts.%s" % spec["field"]), sink["field"] == spec["field"], fn=pm["key"], site=sink["site"], detail="stored into parts.%s from %s(%s)" % (sink["field"], key, show_region(sink["region"])))
         # (i) exactly one loop, iterating split('/') over the raw trimmed argument
         loops = bs["loops"]
